@@ -31,6 +31,11 @@ var c07Scalars = []*jval{
 	{kind: "true"}, {kind: "null"},
 	{kind: "str", lit: ""}, {kind: "str", lit: "x"}, {kind: "str", lit: "[{"}, {kind: "str", lit: "},{"}, {kind: "str", lit: "}]"},
 	{kind: "str", lit: "[]"}, {kind: "str", lit: "{}"}, {kind: "str", lit: ","}, {kind: "str", lit: "\""}, {kind: "str", lit: "\\"},
+	// escapes: HTML-sensitive characters, a literal backslash before u0026 / u003c, control and non-ASCII characters
+	{kind: "str", lit: "<&>"}, {kind: "str", lit: "\\u0026"}, {kind: "str", lit: "a\\u003cb"}, {kind: "str", lit: "\n\t"}, {kind: "str", lit: "\u00e9\u2028"},
+	// number literals: uint64 range, more digits than a float64 holds, exponent form, negative
+	{kind: "num", lit: "18446744073709551615"}, {kind: "num", lit: "0.12345678901234567890123"}, {kind: "num", lit: "1e2"}, {kind: "num", lit: "-7"},
+	{kind: "false"},
 }
 
 func (v *jval) text(b *bytes.Buffer) {
@@ -283,7 +288,7 @@ func TestC07(t *testing.T) {
 	}
 	seed, _ := strconv.ParseInt(os.Getenv("VERIF_SEED"), 10, 64)
 	r := rand.New(rand.NewSource(seed + 7))
-	res := c07Result{Failures: map[string]int{}, Examples: map[string]string{}, Scope: "JSON documents with an object at top level, depth <= 4, <= 2 members per object (keys a,b), <= 3 elements per array, scalars from a pool of 15 (incl. numbers beyond float64, strings with brackets, braces, commas, quotes, backslashes); seeded sample"}
+	res := c07Result{Failures: map[string]int{}, Examples: map[string]string{}, Scope: "JSON documents with an object at top level, depth <= 4, <= 2 members per object (keys a,b), <= 3 elements per array, scalars from a pool of 25 (incl. numbers beyond float64 and uint64 range, exponent form, strings with brackets, braces, commas, quotes, backslashes, HTML-sensitive and escaped characters, control and non-ASCII characters); seeded sample"}
 	seen := map[string]bool{}
 	for i := 0; i < n; i++ {
 		d := genDoc(r)
